@@ -584,6 +584,8 @@ def run(ctx):
         c15c(ctx, tu)
         c15e(ctx, tu)
         n_d += c15d(ctx, tu)
+        from rules import C04
+        C04.c04h(ctx, tu, rule="C15.c.moved")   # the saturated listing of a moved mock: the list moves with it
         for f, e in send_sites(tu):
             sites.add((f.qe, short_loc(e.get("loc", ""))))
         units.append({"unit": tu.name, "functions": len(tu.fns), "severity_contexts": n})
